@@ -7,7 +7,7 @@
 (* records; tensor 0 is the network input, tensor n the output of node n,  *)
 (* the network output is the last tensor.  Node fields:                    *)
 (*   op   : "conv" | "lin" | "relu" | "pool" | "flat" | "add" | "cat" |    *)
-(*          "catt" | "id"                                                  *)
+(*          "catt" | "id" | "gsq" (global pooling + squeeze, 1-D)          *)
 (*   ins  : sequence of producer tensors (all < n)                         *)
 (*   out, k, d, s, bias, bn, dw, excl, causal, reuse                       *)
 (* (out = output channels; dw = depthwise; excl = excluded from the search *)
@@ -59,6 +59,7 @@ Sp(a, n) ==
          CASE nd.op = "conv" -> ((Sp(a, nd.ins[1]) - 1) \div nd.s) + 1
            [] nd.op = "lin"  -> 1
            [] nd.op = "flat" -> 1
+           [] nd.op = "gsq"  -> 1
            [] nd.op = "pool" -> Sp(a, nd.ins[1]) \div 2
            [] nd.op = "catt" -> SumSp(a, nd.ins, 1)
            [] OTHER          -> Sp(a, nd.ins[1])
@@ -66,7 +67,7 @@ SumCh(a, ins, i) == IF i > Len(ins) THEN 0 ELSE Ch(a, ins[i]) + SumCh(a, ins, i 
 SumSp(a, ins, i) == IF i > Len(ins) THEN 0 ELSE Sp(a, ins[i]) + SumSp(a, ins, i + 1)
 RECURSIVE IsFlat(_, _)
 IsFlat(a, n) == IF n = 0 THEN FALSE
-                ELSE CASE Op(a, n) \in {"flat", "lin"} -> TRUE
+                ELSE CASE Op(a, n) \in {"flat", "lin", "gsq"} -> TRUE
                        [] Op(a, n) = "conv" -> FALSE
                        [] OTHER -> IsFlat(a, In1(a, n))
 \* number of spatial positions of a (non-flat) tensor
